@@ -821,6 +821,16 @@ impl ElementRaw {
         };
         drop(move_element_locked);
 
+        // the moved elements may only be restricted to files which also contain their new parent
+        let dest_files = self.effective_file_membership();
+        for (_, elem) in move_element.elements_dfs() {
+            let mut elem_locked = elem.0.write();
+            if !elem_locked.file_membership.is_empty() && !elem_locked.file_membership.is_subset(&dest_files) {
+                // inherit the file membership of the new parent instead
+                elem_locked.file_membership.clear();
+            }
+        }
+
         // fix the identifiables cache
         if move_element.is_identifiable() {
             // simple case: the moved element is identifiable; fix_identifiables automatically handles the sub-elements
@@ -943,6 +953,11 @@ impl ElementRaw {
         };
         drop(move_element_locked);
 
+        // the moved elements can't be restricted to files of the source model any more; they inherit from their new parent
+        for (_, elem) in move_element.elements_dfs() {
+            elem.0.write().file_membership.clear();
+        }
+
         // cache references to all the identifiable elements in move_element
         for (orig_path, identifiable_element) in &original_paths {
             if let Some(suffix) = orig_path.strip_prefix(&src_path_prefix) {
@@ -969,6 +984,22 @@ impl ElementRaw {
             .insert(position, ElementContent::Element(move_element.clone()));
 
         Ok(move_element.clone())
+    }
+
+    /// get the set of files that contain this element, either directly or inherited from a parent element
+    fn effective_file_membership(&self) -> HashSet<crate::WeakArxmlFile> {
+        if !self.file_membership.is_empty() {
+            return self.file_membership.clone();
+        }
+        let mut cur_elem_opt = self.parent().ok().flatten();
+        while let Some(cur_elem) = cur_elem_opt {
+            let files = cur_elem.file_membership_local();
+            if !files.is_empty() {
+                return files;
+            }
+            cur_elem_opt = cur_elem.parent().ok().flatten();
+        }
+        HashSet::new()
     }
 
     /// find the upper and lower bound on the insert position for a new sub element
